@@ -3,6 +3,7 @@ import GeffModel.SchemaSpec
 /-! Schema-validity lemmas for C08: the dump of every valid metadata value validates against the
 typed specification `Schema.Spec`, one lemma per definition. -/
 set_option autoImplicit false
+set_option linter.unusedSimpArgs false
 namespace Geff.Meta.Schema
 open Geff.Meta
 
@@ -32,14 +33,13 @@ theorem unit_valid (n : Nat) (o : Option String) :
       anyOfOk, itemsOk, objOk]
 
 theorem axisType_valid (n : Nat) (o : Option String) (h : ∀ t ∈ o, t ∈ Gen.ValidValues.axisTypes) :
-    validates mp defs (n + 2) (Spec.S (anyOf := some [Spec.strEnum Gen.ValidValues.axisTypes, Spec.null]))
-      (optStrJ o) = true := by
+    validates mp defs (n + 2) Spec.axisType (optStrJ o) = true := by
   cases o with
   | none =>
-    simp [validates, Spec.null, Spec.strEnum, Spec.S, optStrJ, typeOk, refOk, scalarOk, anyOfOk, itemsOk, objOk]
+    simp [validates, Spec.axisType, Spec.null, Spec.strEnum, Spec.S, optStrJ, typeOk, refOk, scalarOk, anyOfOk, itemsOk, objOk]
   | some t =>
     have ht : t ∈ Gen.ValidValues.axisTypes := h t rfl
-    simp [validates, Spec.null, Spec.strEnum, Spec.S, optStrJ, typeOk, refOk, scalarOk, anyOfOk, itemsOk, objOk, ht]
+    simp [validates, Spec.axisType, Spec.null, Spec.strEnum, Spec.S, optStrJ, typeOk, refOk, scalarOk, anyOfOk, itemsOk, objOk, ht]
 
 /-- `Axis` -/
 theorem axis_valid (n : Nat) {ord : F → F → Bool} {a : Axis} (h : a.ValidBy ord) :
@@ -52,8 +52,171 @@ theorem axis_valid (n : Nat) {ord : F → F → Bool} {a : Axis} (h : a.ValidBy 
   have hsc := optNumber_valid mp defs n a.scale
   have hoff := optNumber_valid mp defs n a.offset
   have hname := str_valid mp defs (n + 1) a.name
-  simp only [Spec.axis, Spec.S, dumpAxis, validates, refOk, scalarOk, typeOk, anyOfOk, itemsOk, objOk, lookup,
-    String.reduceEq, ↓reduceIte, List.all_cons, List.all_nil, Option.isSome, hname, ht, hu, hsu, hmin, hmax, hsc,
-    hoff, Bool.and_self, Bool.true_and, Bool.and_true, beq_self_eq_true]
+  simp only [Spec.axis, Spec.S, dumpAxis, validates, refOk, scalarOk, typeOk, anyOfOk, itemsOk, objOk, List.all_cons,
+    List.all_nil, List.map]
+  simp only [lookup, String.reduceBEq, Bool.false_eq_true, ↓reduceIte, Option.isSome, hname, ht, hu, hsu, hmin, hmax, hsc, hoff, Bool.and_self,
+    Bool.and_true, Bool.true_and]
+
+/-- `DisplayHint` -/
+theorem displayHint_valid (n : Nat) (h : DisplayHint) :
+    validates mp defs (n + 3) Spec.displayHint (dumpHint h) = true := by
+  have h1 := str_valid mp defs (n + 1) h.display_horizontal
+  have h2 := str_valid mp defs (n + 1) h.display_vertical
+  have h3 := optString_valid mp defs n h.display_depth
+  have h4 := optString_valid mp defs n h.display_time
+  simp only [Spec.displayHint, Spec.S, dumpHint, validates, refOk, scalarOk, typeOk, anyOfOk, itemsOk, objOk, List.all_cons,
+    List.all_nil, List.map]
+  simp only [lookup, String.reduceBEq, Bool.false_eq_true, ↓reduceIte, Option.isSome, h1, h2, h3, h4, Bool.and_self,
+    Bool.and_true, Bool.true_and]
+
+theorem nonEmptyStr_valid (n : Nat) (s : String) (h : 1 ≤ s.length) :
+    validates mp defs (n + 1) Spec.nonEmptyStr (.str s) = true := by
+  simp [validates, Spec.nonEmptyStr, Spec.S, typeOk, refOk, scalarOk, anyOfOk, itemsOk, objOk, h]
+
+theorem boolean_valid (n : Nat) (b : Bool) : validates mp defs (n + 1) Spec.boolean (.bool b) = true := by
+  simp [validates, Spec.boolean, Spec.S, typeOk, refOk, scalarOk, anyOfOk, itemsOk, objOk]
+
+theorem dtypes_nonempty' : ∀ d ∈ Gen.ValidValues.dtypes, 1 ≤ d.length := by decide
+
+/-- `PropMetadata` -/
+theorem propMetadata_valid (n : Nat) {p : PropMeta} (h : p.Valid) :
+    validates mp defs (n + 3) Spec.propMetadata (dumpProp p) = true := by
+  have h1 := nonEmptyStr_valid mp defs (n + 1) p.identifier h.1
+  have h2 := nonEmptyStr_valid mp defs (n + 1) p.dtype (dtypes_nonempty' _ h.2)
+  have h3 := boolean_valid mp defs (n + 1) p.varlength
+  have h4 := optString_valid mp defs n p.unit
+  have h5 := optString_valid mp defs n p.name
+  have h6 := optString_valid mp defs n p.description
+  simp only [Spec.propMetadata, Spec.S, dumpProp, validates, refOk, scalarOk, typeOk, anyOfOk, itemsOk, objOk, List.all_cons,
+    List.all_nil, List.map]
+  simp only [lookup, String.reduceBEq, Bool.false_eq_true, ↓reduceIte, Option.isSome, h1, h2, h3, h4, h5, h6, Bool.and_self,
+    Bool.and_true, Bool.true_and]
+
+/-- `RelatedObject` -/
+theorem relatedObject_valid (n : Nat) (r : RelatedObject) :
+    validates mp defs (n + 3) Spec.relatedObject (dumpRelated r) = true := by
+  have h1 := str_valid mp defs (n + 1) r.type
+  have h2 := str_valid mp defs (n + 1) r.path
+  have h3 := optString_valid mp defs n r.label_prop
+  simp only [Spec.relatedObject, Spec.S, dumpRelated, validates, refOk, scalarOk, typeOk, anyOfOk, itemsOk, objOk, List.all_cons,
+    List.all_nil, List.map]
+  simp only [lookup, String.reduceBEq, Bool.false_eq_true, ↓reduceIte, Option.isSome, h1, h2, h3, Bool.and_self,
+    Bool.and_true, Bool.true_and]
+
+/-- following a `$ref` -/
+theorem ref_valid (n : Nat) (name : String) (s : Sch) (d : J)
+    (hl : lookup defs ("#/$defs/" ++ name) = some s) (h : validates mp defs n s d = true) :
+    validates mp defs (n + 1) (Spec.ref name) d = true := by
+  cases d <;> simp [validates, Spec.ref, Spec.S, refOk, hl, h, scalarOk, anyOfOk, itemsOk, objOk]
+
+theorem defs_axis : lookup Spec.defs ("#/$defs/" ++ "Axis") = some Spec.axis := rfl
+theorem defs_displayHint : lookup Spec.defs ("#/$defs/" ++ "DisplayHint") = some Spec.displayHint := rfl
+theorem defs_geffMetadata : lookup Spec.defs ("#/$defs/" ++ "GeffMetadata") = some Spec.geffMetadata := rfl
+theorem defs_propMetadata : lookup Spec.defs ("#/$defs/" ++ "PropMetadata") = some Spec.propMetadata := rfl
+theorem defs_relatedObject : lookup Spec.defs ("#/$defs/" ++ "RelatedObject") = some Spec.relatedObject := rfl
+
+/-! ### the fields of `GeffMetadata` -/
+
+theorem axesField_valid (n : Nat) {ord : F → F → Bool} (axes : Option (List Axis))
+    (h : ∀ l ∈ axes, ∀ a ∈ l, a.ValidBy ord) :
+    validates mp Spec.defs (n + 6) Spec.axesField (dumpAxesOpt axes) = true := by
+  cases axes with
+  | none => simp [dumpAxesOpt, validates, Spec.axesField, Spec.null, Spec.S, typeOk, refOk, scalarOk, anyOfOk, itemsOk, objOk]
+  | some l =>
+    have hall : ∀ a ∈ l, validates mp Spec.defs (n + 4) (Spec.ref "Axis") (dumpAxis a) = true :=
+      fun a ha => ref_valid mp Spec.defs (n + 3) "Axis" Spec.axis _ defs_axis (axis_valid mp Spec.defs n (h l rfl a ha))
+    have : (l.map dumpAxis).all (fun x => validates mp Spec.defs (n + 4) (Spec.ref "Axis") x) = true := by
+      simp only [List.all_map, List.all_eq_true]
+      exact fun a ha => hall a ha
+    simp [dumpAxesOpt, validates, Spec.axesField, Spec.null, Spec.S, typeOk, refOk, scalarOk, anyOfOk, itemsOk, objOk, this]
+
+theorem relatedField_valid (n : Nat) (rel : Option (List RelatedObject)) :
+    validates mp Spec.defs (n + 6) Spec.relatedField (dumpRelatedOpt rel) = true := by
+  cases rel with
+  | none => simp [dumpRelatedOpt, validates, Spec.relatedField, Spec.null, Spec.S, typeOk, refOk, scalarOk, anyOfOk, itemsOk, objOk]
+  | some l =>
+    have : (l.map dumpRelated).all (fun x => validates mp Spec.defs (n + 4) (Spec.ref "RelatedObject") x) = true := by
+      simp only [List.all_map, List.all_eq_true]
+      exact fun r _ => ref_valid mp Spec.defs (n + 3) "RelatedObject" Spec.relatedObject _ defs_relatedObject
+        (relatedObject_valid mp Spec.defs n r)
+    simp [dumpRelatedOpt, validates, Spec.relatedField, Spec.null, Spec.S, typeOk, refOk, scalarOk, anyOfOk, itemsOk, objOk, this]
+
+theorem displayHintsField_valid (n : Nat) (h : Option DisplayHint) :
+    validates mp Spec.defs (n + 5) Spec.displayHintsField (dumpHintOpt h) = true := by
+  cases h with
+  | none =>
+    simp [dumpHintOpt, validates, Spec.displayHintsField, Spec.ref, Spec.null, Spec.S, typeOk, refOk, scalarOk, anyOfOk, itemsOk,
+      objOk]
+  | some h =>
+    have := ref_valid mp Spec.defs (n + 3) "DisplayHint" Spec.displayHint _ defs_displayHint
+      (displayHint_valid mp Spec.defs n h)
+    have hobj : ∃ fs, dumpHint h = .obj fs := ⟨_, rfl⟩
+    obtain ⟨fs, hfs⟩ := hobj
+    rw [hfs] at this
+    show validates mp Spec.defs (n + 5) Spec.displayHintsField (dumpHint h) = true
+    rw [hfs]
+    simp [validates, Spec.displayHintsField, Spec.null, Spec.S, anyOfOk, refOk, scalarOk, itemsOk, objOk, this]
+
+theorem propsDict_valid (n : Nat) {d : List (String × PropMeta)} (h : PropsValid d) :
+    validates mp Spec.defs (n + 5) Spec.propsDict (dumpPropsDict d) = true := by
+  have : (d.map (fun kv => (kv.1, dumpProp kv.2))).all
+      (fun kv => validates mp Spec.defs (n + 4) (Spec.ref "PropMetadata") kv.2) = true := by
+    simp only [List.all_map, List.all_eq_true]
+    exact fun kv hkv => ref_valid mp Spec.defs (n + 3) "PropMetadata" Spec.propMetadata _ defs_propMetadata
+      (propMetadata_valid mp Spec.defs n (h kv hkv).2)
+  simp [validates, Spec.propsDict, Spec.S, dumpPropsDict, typeOk, refOk, scalarOk, anyOfOk, itemsOk, objOk, this]
+
+theorem extraField_valid (n : Nat) (e : List (String × J)) :
+    validates mp Spec.defs (n + 2) Spec.extraField (.obj e) = true := by
+  simp [validates, Spec.extraField, Spec.S, typeOk, refOk, scalarOk, anyOfOk, itemsOk, objOk]
+
+theorem versionField_valid (n : Nat) (v : String) (h : mp Gen.Schema.VERSION_PATTERN v = true) :
+    validates mp Spec.defs (n + 1) Spec.versionField (.str v) = true := by
+  simp [validates, Spec.versionField, Spec.S, typeOk, refOk, scalarOk, anyOfOk, itemsOk, objOk, h]
+
+theorem trackField_valid (n : Nat) (t : Option (List (String × String)))
+    (h : ∀ l ∈ t, ∀ kv ∈ l, kv.1 ∈ trackKeys) :
+    validates mp Spec.defs (n + 3) Spec.trackField (dumpTrackOpt t) = true := by
+  cases t with
+  | none => simp [dumpTrackOpt, validates, Spec.trackField, Spec.null, Spec.S, typeOk, refOk, scalarOk, anyOfOk, itemsOk, objOk]
+  | some l =>
+    have hk : ∀ kv ∈ l, ["lineage", "tracklet"].contains kv.1 = true := by
+      intro kv hkv
+      have := h l rfl kv hkv
+      simpa [trackKeys] using this
+    simp [dumpTrackOpt, validates, Spec.trackField, Spec.null, Spec.str, Spec.S, typeOk, refOk, scalarOk, anyOfOk, itemsOk, objOk,
+      List.all_map, List.all_eq_true]
+    intro a b hab
+    simpa using hk (a, b) hab
+
+/-- `GeffMetadata`: the dump of a value satisfying the invariants validates against the definition -/
+theorem geffMetadata_valid (n : Nat) {ord : F → F → Bool} {env : Env} {m : Meta} (hm : ValidBy ord env m) :
+    validates env.pat Spec.defs (n + 7) Spec.geffMetadata (dump m) = true := by
+  obtain ⟨hv, hax, hn, he, ht, hr⟩ := hm
+  have a1 := axesField_valid env.pat n m.axes (fun l hl => (hax l hl).2.1)
+  have a2 := boolean_valid env.pat Spec.defs (n + 5) m.directed
+  have a3 := displayHintsField_valid env.pat (n + 1) m.display_hints
+  have a4 := propsDict_valid env.pat (n + 1) he
+  have a5 := optString_valid env.pat Spec.defs (n + 4) m.ellipsoid
+  have a6 := extraField_valid env.pat (n + 4) m.extra
+  have a7 := versionField_valid env.pat (n + 5) m.geff_version hv
+  have a8 := propsDict_valid env.pat (n + 1) hn
+  have a9 := relatedField_valid env.pat n m.related_objects
+  have a10 := optString_valid env.pat Spec.defs (n + 4) m.sphere
+  have a11 := trackField_valid env.pat (n + 3) m.track_node_props ht
+  simp only [Spec.geffMetadata, Spec.S, dump, dumpFields, validates, refOk, scalarOk, typeOk, anyOfOk, itemsOk, objOk,
+    List.all_cons, List.all_nil]
+  simp only [lookup, String.reduceBEq, Bool.false_eq_true, ↓reduceIte, Option.isSome, a1, a2, a3, a4, a5, a6, a7, a8,
+    a9, a10, a11, Bool.and_self, Bool.and_true, Bool.true_and]
+
+/-- the root schema: `{"geff": <dump>}` -/
+theorem root_valid (n : Nat) {ord : F → F → Bool} {env : Env} {m : Meta} (hm : ValidBy ord env m) :
+    validates env.pat Spec.defs (n + 9) Spec.root (.obj [("geff", dump m)]) = true := by
+  have := ref_valid env.pat Spec.defs (n + 7) "GeffMetadata" Spec.geffMetadata _ defs_geffMetadata
+    (geffMetadata_valid n hm)
+  simp only [Spec.root, Spec.S, validates, refOk, scalarOk, typeOk, anyOfOk, itemsOk, objOk, List.all_cons,
+    List.all_nil]
+  simp only [lookup, String.reduceBEq, Bool.false_eq_true, ↓reduceIte, Option.isSome, this, Bool.and_self,
+    Bool.and_true, Bool.true_and]
 
 end Geff.Meta.Schema
